@@ -393,7 +393,16 @@ class _State(object):
             self.block(st.body)
         elif isinstance(st, (ast.Pass, ast.Global, ast.Nonlocal, ast.Import, ast.ImportFrom, ast.Assert)):
             pass
-        elif isinstance(st, (ast.FunctionDef, ast.ClassDef)):
+        elif isinstance(st, ast.FunctionDef):
+            body = [b for b in st.body if not (isinstance(b, ast.Expr) and isinstance(b.value, ast.Constant))]
+            if len(body) == 1 and isinstance(body[0], ast.Return) and body[0].value is not None and not st.args.vararg and not st.args.kwarg and not st.decorator_list:
+                # a local one-expression function (a strategy handed to a helper): its body stands for its calls
+                cid = len(self.ex.__dict__.setdefault("closures", []))
+                self.ex.closures.append((st, dict(self.env), self.module))
+                self.env[st.name] = ("closure", cid)
+            else:
+                self.env[st.name] = ("unknown", "nested def")
+        elif isinstance(st, ast.ClassDef):
             self.env[st.name] = ("unknown", "nested def")
         elif isinstance(st, (ast.Break, ast.Continue)):
             self.live = False
@@ -439,6 +448,8 @@ class _State(object):
             pv = self.repo.const(self.repo.mod(mname), name)
         except Exception:
             return None
+        if isinstance(pv, FuncRef) and isinstance(pv.node, ast.ClassDef):
+            return self._plain_record_args(pv, w)
         if not (isinstance(pv, tuple) and len(pv) == 3 and pv[0] == "namedtuple"):
             return None
         fields = list(pv[2])
@@ -447,6 +458,65 @@ class _State(object):
         if len(args) + len(kw) != len(fields) or any(k not in fields[len(args):] for k in kw):
             return None
         return fields, args + [kw[f] for f in fields[len(args):]]
+
+    def _plain_record_args(self, cref, w):
+        """an options / record class of the package: __init__ only stores its parameters (self.x = x, a constant, or a
+        simple expression of parameters) and nothing else assigns attributes; the fields are what __init__ stores"""
+        cls = cref.node
+        init = [st for st in cls.body if isinstance(st, ast.FunctionDef) and st.name == "__init__"]
+        others = [st for st in cls.body if isinstance(st, ast.FunctionDef) and st.name != "__init__"]
+        if len(init) != 1 or any(isinstance(x, (ast.Assign, ast.AugAssign)) and any(isinstance(t, ast.Attribute) for t in (x.targets if isinstance(x, ast.Assign) else [x.target])) for o in others for x in ast.walk(o)):
+            return None
+        fn = init[0]
+        names, defaults = func_params(fn)
+        if names and len(names) == 1 and fn.args.kwarg is not None and not fn.args.vararg and not w[2]:
+            # def __init__(self, **options): for name in self.__slots__: setattr(self, name, options[name])
+            body = [st for st in fn.body if not (isinstance(st, ast.Expr) and isinstance(st.value, ast.Constant))]
+            kw = dict(w[3]) if len(w) > 3 and w[3] else {}
+            if len(body) == 1 and isinstance(body[0], ast.For) and "setattr(" in unparse(body[0]) and "**" not in kw and fn.args.kwarg.arg + "[" in unparse(body[0]):
+                slots = [st for st in cls.body if isinstance(st, ast.Assign) and any(isinstance(t, ast.Name) and t.id == "__slots__" for t in st.targets)]
+                try:
+                    listed = list(self.repo.ceval(cref.module, slots[0].value)) if slots else None
+                except Unknown:
+                    listed = None
+                if listed is not None and sorted(listed) == sorted(kw):
+                    return listed, [kw[k] for k in listed]
+            return None
+        if not names or fn.args.vararg or fn.args.kwarg:
+            return None
+        params = names[1:]
+        args = list(w[2])
+        kw = dict(w[3]) if len(w) > 3 and w[3] else {}
+        if len(args) > len(params) or "**" in kw or any(a[0] == "starred" for a in args):
+            return None
+        bound = dict(zip(params, args))
+        for k, v in kw.items():
+            if k not in params or k in bound:
+                return None
+            bound[k] = v
+        for p in params:
+            if p not in bound:
+                if p not in defaults:
+                    return None
+                try:
+                    bound[p] = ("const", _hashable(self.repo.ceval(cref.module, defaults[p])))
+                except Unknown:
+                    return None
+        fields, terms = [], []
+        for st in fn.body:
+            if isinstance(st, ast.Expr) and isinstance(st.value, ast.Constant):
+                continue
+            if not (isinstance(st, ast.Assign) and len(st.targets) == 1 and isinstance(st.targets[0], ast.Attribute) and isinstance(st.targets[0].value, ast.Name) and st.targets[0].value.id == names[0]):
+                return None
+            if isinstance(st.value, ast.Name) and st.value.id in bound:
+                t = bound[st.value.id]
+            elif isinstance(st.value, ast.Constant):
+                t = ("const", st.value.value)
+            else:
+                return None
+            fields.append(st.targets[0].attr)
+            terms.append(t)
+        return fields, terms
 
     def item(self, v, i, n=None):
         if self.is_split_like(v) and n == 5:
@@ -719,6 +789,23 @@ class _State(object):
                 if fv[0] == "partial":
                     # a local functools.partial(f, ...) called: the call of f with both argument lists
                     return self._call_value(fv, args, kwargs, n)
+                if fv[0] == "closure" and self.depth < self.ex.inline_depth + 2:
+                    node, cenv, cmod = self.ex.closures[fv[1]]
+                    names, defaults = func_params(node)
+                    if len(args) <= len(names) and not any(k == "**" for k, _ in kwargs) and not any(a[0] == "starred" for a in args):
+                        sub = _State(self.ex, cmod, dict(cenv), self.depth + 1)
+                        bound = dict(zip(names, args))
+                        bound.update(dict(kwargs))
+                        okb = True
+                        for nm in names:
+                            if nm in bound:
+                                sub.env[nm] = bound[nm]
+                            elif nm in defaults:
+                                sub.env[nm] = sub.expr(defaults[nm])
+                            else:
+                                okb = False
+                        if okb:
+                            return sub.expr([b for b in node.body if isinstance(b, ast.Return)][0].value)
                 if fv[0] == "funcref" or (fv[0] == "global" and fv[1].startswith(self.repo.package + ".")):
                     # a function (or module-level partial / compiled pattern) received as an argument
                     qn = fv[1]
